@@ -323,6 +323,8 @@ impl<'a> Lexer<'a> {
 
     /// Get the next token from the source
     pub fn next_token(&mut self) -> Token {
+        #[cfg(tsrun_verif)]
+        verif_work::tick();
         self.skip_whitespace_and_comments();
 
         self.start_pos = self.current_pos;
@@ -1462,4 +1464,35 @@ fn is_id_start_char(ch: char) -> bool {
 /// Check if a decoded character is valid as identifier continue (without escape check)
 fn is_id_continue_char(ch: char) -> bool {
     ch == '_' || ch == '$' || ch.is_ascii_alphanumeric()
+}
+
+/// Verification hook (only with `--cfg tsrun_verif`): a deterministic measure of parser work.
+/// Every token the lexer produces (including re-lexing after a speculative parse was rolled
+/// back) counts one unit; a host can set a budget after which the next token panics, so that a
+/// parser loop is observed without wall-clock timeouts.
+#[cfg(tsrun_verif)]
+pub mod verif_work {
+    use std::cell::Cell;
+    thread_local! {
+        static WORK: Cell<u64> = const { Cell::new(0) };
+        static BUDGET: Cell<u64> = const { Cell::new(u64::MAX) };
+    }
+    pub fn reset(budget: u64) {
+        WORK.with(|w| w.set(0));
+        BUDGET.with(|b| b.set(budget));
+    }
+    pub fn get() -> u64 {
+        WORK.with(|w| w.get())
+    }
+    #[inline]
+    pub fn tick() {
+        let n = WORK.with(|w| {
+            w.set(w.get() + 1);
+            w.get()
+        });
+        if n > BUDGET.with(|b| b.get()) {
+            BUDGET.with(|b| b.set(u64::MAX));
+            panic!("tsrun_verif: parser work budget exceeded");
+        }
+    }
 }
